@@ -72,6 +72,8 @@ class Cost:
         self.recursion_sites = []   # (body, Call)
         self.linear_sites = {}      # body path -> list of descriptions (first few)
         self.mv = movers(ctx)
+        self.zst_exempt = {}
+        self._skip = set()
 
     @staticmethod
     def add(a, b):
@@ -158,6 +160,12 @@ class Cost:
         for bb in w:
             if mult[bb] != 1:
                 w[bb] = self.mul(w[bb], mult[bb])
+        # Paths taken only when size_of::<T>() == 0 are analysed under a separate argument: a zero-sized type has a single value, so
+        # (with a reflexive Eq) a table of zero-sized elements holds at most one element and "all leftovers" is at most one move.
+        from rules_protocol import _sizeof_guard_edges
+        self._skip = {e for e, k in _sizeof_guard_edges(ctx, body).items() if k == "zero"}
+        if self._skip:
+            self.zst_exempt.setdefault(body.path, sorted("bb%d->bb%d" % e for e in self._skip))
         res = self._longest(body, w, set())
         # direct recursion: the re-entered call is charged the cost of the paths that do not re-enter (accepted shape: W-reentry)
         rec_bbs = {c.loc.bb for b2, c in self.recursion_sites if b2.path == body.path and c.local_callee() is not None and c.local_callee().path == body.path}
@@ -182,7 +190,7 @@ class Cost:
             x, it = stack[-1]
             adv = False
             for s_ in it:
-                if (x, s_) in back or s_ not in w or s_ in exclude or s_ in seen:
+                if (x, s_) in back or s_ not in w or s_ in exclude or s_ in seen or (x, s_) in self._skip:
                     continue
                 seen.add(s_)
                 stack.append((s_, iter(body.succs(s_))))
@@ -194,7 +202,7 @@ class Cost:
         best = {}
         for x in order:
             b = None
-            succs = [s_ for s_ in body.succs(x) if (x, s_) not in back and s_ in w]
+            succs = [s_ for s_ in body.succs(x) if (x, s_) not in back and s_ in w and (x, s_) not in self._skip]
             if not succs:
                 b = dict(self.ZERO)      # return / diverging end / loop tail
             for s_ in succs:
@@ -245,6 +253,9 @@ def rule_w_bound(ctx):
             R.viol("%s" % name, b.where(Loc(0, 0)),
                    "worst path from %s: moves=%s (bound 8) hashes=%s (bound 10) allocations=%s (bound 1) linear-operations=%s (bound 0). %s"
                    % (name, _fmt(tot["M"]), _fmt(tot["H"]), _fmt(tot["A"]), _fmt(tot["L"]), "; ".join(culprit[:6])))
+    for p, e in ce.zst_exempt.items():
+        R.notes.append("paths taken only for zero-sized element types are not counted in %s (%s): a zero-sized type has one value, so a table of such "
+                       "elements holds at most one element under a reflexive Eq and moving 'all' leftovers is at most one move" % (p, ", ".join(e)))
     return R
 
 
